@@ -82,7 +82,7 @@ def strategy():
         leaf = draw(gen.ident_bytes(1, 15))
         return {"u": list(u), "g": list(g), "cwd": cwd, "deep_len": deep_len, "stdin": stdin, "tty_owner": tty_owner, "envk": envk,
                 "v1": v1, "chain": chain, "orphan": orphan, "newsid": newsid, "host": host, "logname": logname, "sudo_user": sudo_user,
-                "dtf": dtf, "cgs": cgs, "leaf": leaf}
+                "dtf": dtf, "cgs": cgs, "leaf": leaf, "bigpid": draw(st.sampled_from([0] * 7 + [1234567, 4194000]))}
     return case()
 
 
@@ -202,7 +202,7 @@ def evaluate(env, c):
     environ = environ_for(c)
     # one call in the ancestor process first: whatever the library caches per process/thread must not survive fork()
     ops = [drv.op("W", "log", out + "/log"), drv.op("C", ini), drv.op_exec("v", b"/bin/ancestor", [b"ancestor"], [], ret=-1, err=2),
-           drv.op("x", out + "/log"), drv.op("f")]
+           drv.op("x", out + "/log")] + ([drv.op("g", c["bigpid"])] if c.get("bigpid") else []) + [drv.op("f")]
     if c["host"] is not None:
         ops.append(drv.op("n", c["host"]))
     if c["newsid"]:
@@ -413,7 +413,7 @@ def classify(c):
     distinct = len({c["u"][0], c["u"][1]}) + len({c["g"][0], c["g"][1]}) >= 4 or len({c["u"][0], c["u"][1], c["g"][0], c["g"][1]}) >= 3
     tty = c["stdin"] == "pty"
     nontriv = distinct or tty or c["cwd"] in ("deleted", "deep") or c["orphan"]
-    cls = ["cwd:" + c["cwd"], "stdin:" + c["stdin"], "env:" + c["envk"], "chain:%d" % len(c["chain"])]
+    cls = ["cwd:" + c["cwd"], "stdin:" + c["stdin"], "env:" + c["envk"], "chain:%d" % len(c["chain"])] + (["pid:7-digits(own pid namespace)"] if c.get("bigpid") else [])
     for f, n in ((distinct, "ids-distinct"), (c["orphan"], "orphan"), (c["newsid"], "new-session"), (c["host"] is not None, "uts-hostname"),
                  (any(pw_name(u) is None for u in c["u"][:2]), "uid-without-passwd-entry"),
                  (any(gr_name(g) is None for g in c["g"][:2]), "gid-without-group-entry")):
